@@ -11,8 +11,9 @@ simulated day / every summary row of every run** of `runModel`.
    `run_irr_column`); the seasonal cap is an invariant of the run (`run_season_cap`), the
    counters are zero at every season start (`run_counter_reset`).
 2. C06: (a) `run_summary_irrigation` — the seasonal irrigation of every summary row is the sum of
-   the daily irrigation column over the days of that season up to the harvest day (invariant
-   "counter = sum so far" + the reset + the clock: `run_gs_of_flag`); (b)
+   the daily irrigation column over all days of that season (invariant "counter = sum so far" +
+   the reset + the clock: `run_gs_of_flag`, and `run_no_growing_day_after_harvest`: no growing day
+   after the summary row; `run_summary_irrigation_upto`: the sum up to the harvest day); (b)
    `run_summary_yields` — the yields of the row are those of the `crop_growth` row of its harvest
    day; (c) `run_summary_rows`, `run_summary_complete` — one row per completed season, in season
    order, written on the first end-of-season day; (d) `run_daily_identities`.
